@@ -18,18 +18,19 @@ static ESL_STACK *ST; static char STYPE = 'i';
 
 /* ---- watchdog: a broken implementation may loop for ever (e.g. a cyclic hash chain) or become pathologically slow
  * (e.g. an allocation that doubles at every call). Each case gets a time limit: the process then dies, the engine reports
- * `fault ...` for the case and restarts after it. The seconds spent in timed-out or slow (>= 1 s) cases are added up in a
- * file of the run's private working directory; once they exceed the budget (env C19_TIME_BUDGET, default 150 s) the
+ * `fault ...` for the case and restarts after it. The seconds spent in timed-out or slow (>= 20 s) cases are added up in a
+ * file of the run's private working directory; once they exceed the budget (env C19_TIME_BUDGET, default 600 s) the
  * remaining cases are answered `fault time-limit` at once, so that a broken tree costs a bounded amount of time.
  * On an intact tree the cases of the quick tier take milliseconds (the longest ~0.3 s); the thorough tier's 10^5-operation
- * histories take a few seconds each and get a budget of 1500 s. */
+ * histories take a few seconds each and get a budget of 3000 s. The limits are deliberately generous (a 40 s limit
+ * fired once on an intact tree when the machine ran at load average 80): 240 s per case, below the engine's 300 s batch limit. */
 #include <signal.h>
 #include <unistd.h>
 #include <fcntl.h>
 #include <time.h>
 #include <sys/stat.h>
-#define H_CASE_SECONDS 40
-#define H_SLOW_SECONDS 1
+#define H_CASE_SECONDS 240
+#define H_SLOW_SECONDS 20
 #define H_TIMEFILE     "c19.seconds"
 static int h_skip_case;
 static struct timespec h_t0;
@@ -51,7 +52,7 @@ static void h_on_alarm(int sig)
 }
 static void h_watchdog_begin(void)
 {
-  struct stat st; const char *e = getenv("C19_TIME_BUDGET"); long budget = e ? atol(e) : 150;
+  struct stat st; const char *e = getenv("C19_TIME_BUDGET"); long budget = e ? atol(e) : 600;
   h_skip_case = (stat(H_TIMEFILE, &st) == 0 && (long) st.st_size >= budget);
   if (!h_skip_case) { signal(SIGALRM, h_on_alarm); alarm(H_CASE_SECONDS); clock_gettime(CLOCK_MONOTONIC, &h_t0); }
 }
